@@ -66,6 +66,13 @@ pub fn menu() -> Vec<Item> {
         Item { name: "cursive_builder", heavy: false, small: false, f: cursive_builder },
         Item { name: "gsub_builders", heavy: false, small: false, f: gsub_builders },
         Item { name: "lookalike_typed_tables", heavy: false, small: false, f: lookalike_typed_tables },
+        // every public builder again with 'degenerate but legal' inputs that invite dedup / sort
+        // shortcuts: repeated glyphs in lists, duplicate rules, equal keys inserted twice, ties
+        Item { name: "gsub_builders_degenerate", heavy: false, small: false, f: gsub_builders_degenerate },
+        Item { name: "gpos_builders_degenerate", heavy: false, small: false, f: gpos_builders_degenerate },
+        Item { name: "coverage_classdef_caret_builders_degenerate", heavy: false, small: false, f: coverage_classdef_caret_builders_degenerate },
+        Item { name: "glyf_loca_builder_duplicates", heavy: false, small: false, f: glyf_loca_builder_duplicates },
+        Item { name: "font_builder_degenerate", heavy: false, small: false, f: font_builder_degenerate },
         Item { name: "post_v2_repeated_names", heavy: false, small: false, f: post_v2_repeated_names },
         Item { name: "cmap_format12_duplicates", heavy: false, small: false, f: cmap_format12_duplicates },
         Item { name: "ivs_builder_ties_both_modes", heavy: false, small: false, f: ivs_builder_ties_both_modes },
@@ -704,6 +711,232 @@ fn lookalike_typed_tables() -> Vec<u8> {
         PositionLookup::MarkToMark(Lookup::new(LookupFlag::empty(), m2m)),
     ]));
     out
+}
+
+/// All four GSUB builders inside LookupBuilders (with a mark filtering set and forced subtable breaks),
+/// fed in a fixed order with: the same rule twice, the same key with a different value (last / first
+/// wins as documented), replacement and alternate lists that repeat glyphs (e.g. the alternates
+/// [31,35,32,36,33,31,34]: order and repeats must be written as given), ligatures with repeated
+/// components, equal-length ligatures inserted in different orders and exact duplicate ligatures.
+fn gsub_builders_degenerate() -> Vec<u8> {
+    use write_fonts::tables::gsub::builders::{AlternateSubBuilder, LigatureSubBuilder, MultipleSubBuilder, SingleSubBuilder};
+    use write_fonts::tables::gsub::{Gsub, SubstitutionLookup};
+    use write_fonts::tables::layout::builders::LookupBuilder;
+    let mut vs = VariationStoreBuilder::new(2);
+    let flags = LookupFlag::empty();
+
+    let mut single = LookupBuilder::<SingleSubBuilder>::new(flags, Some(3));
+    for (a, b) in [(12u16, 40u16), (10, 40), (11, 41), (10, 40), (12, 40), (13, 40), (12, 44)] {
+        single.last_mut().unwrap().insert(g(a), g(b));
+    }
+    single.force_subtable_break();
+    for (a, b) in [(22u16, 23u16), (21, 22), (22, 23), (20, 21)] {
+        single.last_mut().unwrap().insert(g(a), g(b));
+    }
+
+    let mut multi = LookupBuilder::<MultipleSubBuilder>::new(flags, None);
+    for (t, r) in [(30u16, vec![5u16, 5, 6, 5]), (29, vec![7, 7]), (30, vec![5, 5, 6, 5]), (31, vec![9, 8, 9, 8, 9]), (28, vec![5, 5, 6, 5])] {
+        multi.last_mut().unwrap().insert(g(t), r.into_iter().map(g).collect());
+    }
+
+    let mut alt = LookupBuilder::<AlternateSubBuilder>::new(flags, None);
+    for (t, r) in [
+        (50u16, vec![31u16, 35, 32, 36, 33, 31, 34]),
+        (52, vec![60, 60]),
+        (51, vec![70, 71, 72]),
+        (53, vec![83, 82, 81, 80, 83, 82, 81, 80, 79]),
+        (51, vec![72, 71, 70, 71]),
+        (54, vec![90, 91, 92, 93, 94, 95, 96, 90]),
+    ] {
+        alt.last_mut().unwrap().insert(g(t), r.into_iter().map(g).collect());
+    }
+    alt.force_subtable_break();
+    alt.last_mut().unwrap().insert(g(55), [101u16, 100, 101, 102, 100].into_iter().map(g).collect());
+
+    let mut lig = LookupBuilder::<LigatureSubBuilder>::new(flags, None);
+    for (comps, r) in [
+        (vec![60u16, 61, 62], 200u16),
+        (vec![60, 62, 61], 201),
+        (vec![60, 61, 62], 200), // exact duplicate: skipped
+        (vec![60, 60, 60], 202), // repeated components
+        (vec![60, 61], 203),
+        (vec![60, 62], 204),
+        (vec![60, 60], 205),
+        (vec![59, 61, 62, 63], 206),
+        (vec![59, 61], 207),
+        (vec![59, 61, 62, 64], 208),
+    ] {
+        lig.last_mut().unwrap().insert(comps.into_iter().map(g).collect(), g(r));
+    }
+
+    let lookups = vec![
+        SubstitutionLookup::Single(single.build(&mut vs)),
+        SubstitutionLookup::Multiple(multi.build(&mut vs)),
+        SubstitutionLookup::Alternate(alt.build(&mut vs)),
+        SubstitutionLookup::Ligature(lig.build(&mut vs)),
+    ];
+    let gsub = Gsub::new(Default::default(), Default::default(), LookupList::new(lookups));
+    dump_table(&gsub).unwrap()
+}
+
+/// The GPOS builders inside LookupBuilders with degenerate inputs: the same glyph / pair / class rule
+/// inserted twice (same and different values), marks inserted twice, a base given two anchors for one
+/// class, ligature components supplied in two calls, anchors with device tables and with deltas
+/// (identical delta sets repeated), contour-point anchors. Output: GPOS bytes ++ variation store bytes.
+fn gpos_builders_degenerate() -> Vec<u8> {
+    use write_fonts::tables::layout::builders::LookupBuilder;
+    use write_fonts::tables::layout::Device;
+    use write_fonts::tables::variations::ivs_builder::RemapVariationIndices;
+    let mut vs = VariationStoreBuilder::new(2);
+    let flags = LookupFlag::empty();
+    let dev = || Device::new(9, 12, &[1, -1, 2, 0]);
+    let var = |k: usize, v: i16| vec![(region(k), v), (region(k + 1), -v)];
+
+    let mut sp = LookupBuilder::<SinglePosBuilder>::new(flags, None);
+    for (gl, adv) in [(12u16, -10i16), (10, -10), (11, -10), (10, -10), (12, -12), (14, 5), (13, 5)] {
+        sp.last_mut().unwrap().insert(g(gl), ValueRecordBuilder::new().with_x_advance(adv).with_x_advance_device(var(0, adv)));
+    }
+    sp.last_mut().unwrap().insert(g(15), ValueRecordBuilder::new().with_y_placement(3).with_y_placement_device(dev()));
+    sp.last_mut().unwrap().insert(g(16), ValueRecordBuilder::new().with_y_placement(3).with_y_placement_device(dev()));
+
+    let mut pp = LookupBuilder::<PairPosBuilder>::new(flags, None);
+    for (a, b, adv) in [(1u16, 2u16, -5i16), (1, 2, -7), (1, 3, -5), (2, 2, -5), (1, 2, -5), (2, 1, 0)] {
+        pp.last_mut().unwrap().insert_pair(g(a), ValueRecordBuilder::new().with_x_advance(adv), g(b), ValueRecordBuilder::new());
+    }
+    for _ in 0..2 {
+        pp.last_mut().unwrap().insert_classes(gset(&[20, 21]), ValueRecordBuilder::new().with_x_advance(-3), gset(&[30, 31]), ValueRecordBuilder::new());
+        pp.last_mut().unwrap().insert_classes(gset(&[22, 23]), ValueRecordBuilder::new().with_x_advance(-3), gset(&[30, 31]), ValueRecordBuilder::new());
+    }
+    pp.last_mut().unwrap().insert_classes(gset(&[20, 21]), ValueRecordBuilder::new().with_x_advance(-4), gset(&[30, 31]), ValueRecordBuilder::new());
+
+    let mut cu = LookupBuilder::<CursivePosBuilder>::new(flags, None);
+    for (gl, x) in [(40u16, 1i16), (41, 2), (40, 3), (42, 2), (41, 2)] {
+        cu.last_mut().unwrap().insert(g(gl), Some(AnchorBuilder::new(x, 0).with_contourpoint(2)), Some(AnchorBuilder::new(100, x).with_x_device(var(2, x))));
+    }
+
+    let mut mb = LookupBuilder::<MarkToBaseBuilder>::new(flags, Some(1));
+    let mut mm = LookupBuilder::<MarkToMarkBuilder>::new(flags, None);
+    let mut ml = LookupBuilder::<MarkToLigBuilder>::new(flags, None);
+    for rep in 0..2 {
+        for (gl, cls) in [(501u16, "top"), (500, "top"), (503, "bottom"), (502, "bottom")] {
+            let a = AnchorBuilder::new(7, 8 + rep * 0).with_y_device(dev());
+            mb.last_mut().unwrap().insert_mark(g(gl), cls, a.clone()).unwrap();
+            mm.last_mut().unwrap().insert_mark1(g(gl), cls, a.clone()).unwrap();
+            ml.last_mut().unwrap().insert_mark(g(gl), cls, a).unwrap();
+        }
+    }
+    for (gl, cls, x) in [(60u16, "top", 1i16), (60, "top", 2), (60, "bottom", 1), (61, "bottom", 1), (61, "bottom", 1)] {
+        mb.last_mut().unwrap().insert_base(g(gl), cls, AnchorBuilder::new(x, 300).with_x_device(var(4, x)));
+        mm.last_mut().unwrap().insert_mark2(g(gl + 500), cls, AnchorBuilder::new(x, 50));
+    }
+    for (cls, comps) in [("top", vec![Some(1i16), None, Some(3)]), ("bottom", vec![None, Some(2), Some(3)]), ("top", vec![Some(9), Some(9), None])] {
+        let c = comps.into_iter().map(|o| o.map(|x| AnchorBuilder::new(x, 400))).collect();
+        ml.last_mut().unwrap().insert_ligature(g(70), cls, c);
+    }
+
+    let lookups = vec![
+        PositionLookup::Single(sp.build(&mut vs)),
+        PositionLookup::Pair(pp.build(&mut vs)),
+        PositionLookup::Cursive(cu.build(&mut vs)),
+        PositionLookup::MarkToBase(mb.build(&mut vs)),
+        PositionLookup::MarkToMark(mm.build(&mut vs)),
+        PositionLookup::MarkToLig(ml.build(&mut vs)),
+    ];
+    let n = lookups.len() as u16;
+    let (sl, fl) = simple_script_feature_lists(n);
+    let mut gpos = Gpos::new(sl, fl, LookupList::new(lookups));
+    let (store, remap) = vs.build();
+    gpos.remap_variation_indices(&remap);
+    let mut out = dump_table(&gpos).unwrap();
+    out.extend(dump_table(&store).unwrap());
+    out
+}
+
+/// CoverageTableBuilder (unsorted input with duplicates, `add` of existing glyphs, both output formats),
+/// ClassDef collected from (glyph, class) pairs with repeated glyphs, and GDEF caret value builders with
+/// identical coordinates, devices and delta sets.
+fn coverage_classdef_caret_builders_degenerate() -> Vec<u8> {
+    use write_fonts::tables::layout::builders::{CaretValueBuilder, CoverageTableBuilder, DeviceOrDeltas};
+    use write_fonts::tables::layout::Device;
+    let mut out = vec![];
+    let c1 = CoverageTableBuilder::from_glyphs([9u16, 3, 7, 3, 9, 1, 200, 7].into_iter().map(g).collect()).build();
+    out.extend(dump_table(&c1).unwrap());
+    let mut b = CoverageTableBuilder::from_glyphs(vec![g(50), g(40), g(50)]);
+    for x in [45u16, 41, 40, 44, 42, 43, 45, 46, 41] {
+        out.extend(b.add(g(x)).to_be_bytes());
+    }
+    out.extend(dump_table(&b.build()).unwrap());
+    let cd: ClassDef = [(g(5), 1u16), (g(3), 2), (g(5), 3), (g(4), 2), (g(3), 2), (g(9), 0), (g(6), 3)].into_iter().collect();
+    out.extend(dump_table(&cd).unwrap());
+    let mut vs = VariationStoreBuilder::new(2);
+    let carets = vec![
+        CaretValueBuilder::Coordinate { default: 100, deltas: DeviceOrDeltas::None },
+        CaretValueBuilder::Coordinate { default: 100, deltas: DeviceOrDeltas::None },
+        CaretValueBuilder::Coordinate { default: 100, deltas: vec![(region(0), 5i16), (region(1), 5)].into() },
+        CaretValueBuilder::Coordinate { default: 100, deltas: vec![(region(0), 5i16), (region(1), 5)].into() },
+        CaretValueBuilder::Coordinate { default: 90, deltas: Device::new(10, 11, &[1, 1]).into() },
+        CaretValueBuilder::PointIndex(4),
+        CaretValueBuilder::PointIndex(4),
+    ];
+    let built: Vec<CaretValue> = carets.into_iter().map(|c| c.build(&mut vs)).collect();
+    let lig = LigCaretList::new([g(7), g(8)].into_iter().collect::<CoverageTable>(), vec![LigGlyph::new(built.clone()), LigGlyph::new(built)]);
+    let mut gdef = Gdef::new(None, None, Some(lig), None);
+    let (store, remap) = vs.build();
+    use write_fonts::tables::variations::ivs_builder::RemapVariationIndices;
+    gdef.remap_variation_indices(&remap);
+    gdef.item_var_store = store.into();
+    out.extend(dump_table(&gdef).unwrap());
+    out
+}
+
+/// GlyfLocaBuilder: identical simple glyphs added several times, empty glyphs, a composite with the same
+/// component twice; output glyf ++ loca bytes.
+fn glyf_loca_builder_duplicates() -> Vec<u8> {
+    use kurbo::BezPath;
+    use write_fonts::tables::glyf::{Anchor, Bbox, Component, ComponentFlags, CompositeGlyph, GlyfLocaBuilder, Glyph, SimpleGlyph, Transform};
+    let tri = |dx: f64| {
+        let mut p = BezPath::new();
+        p.move_to((dx, 0.0));
+        p.line_to((dx + 100.0, 0.0));
+        p.line_to((dx + 100.0, 0.0)); // repeated point
+        p.quad_to((dx + 50.0, 80.0), (dx + 10.0, 120.0));
+        p.close_path();
+        SimpleGlyph::from_bezpath(&p).unwrap()
+    };
+    let mut b = GlyfLocaBuilder::new();
+    b.add_glyph(&Glyph::Empty).unwrap();
+    b.add_glyph(&tri(0.0)).unwrap();
+    b.add_glyph(&tri(0.0)).unwrap();
+    b.add_glyph(&Glyph::Empty).unwrap();
+    b.add_glyph(&tri(7.0)).unwrap();
+    let comp = |x: i16| Component::new(g(1), Anchor::Offset { x, y: 0 }, Transform::default(), ComponentFlags::default());
+    let bbox = Bbox { x_min: 0, y_min: 0, x_max: 100, y_max: 120 };
+    let mut cg = CompositeGlyph::new(comp(0), bbox);
+    cg.add_component(comp(0), bbox);
+    cg.add_component(comp(50), bbox);
+    b.add_glyph(&cg).unwrap();
+    b.add_glyph(&tri(0.0)).unwrap();
+    let (glyf, loca, _) = b.build();
+    let mut out = dump_table(&glyf).unwrap();
+    out.extend(dump_table(&loca).unwrap());
+    out
+}
+
+/// FontBuilder: tags added in descending order, the same tag added twice (raw twice; compiled then
+/// raw), empty tables, identical contents under different tags.
+fn font_builder_degenerate() -> Vec<u8> {
+    let mut fb = FontBuilder::new();
+    fb.add_raw(Tag::new(b"zzzz"), vec![1u8, 2, 3]);
+    fb.add_raw(Tag::new(b"yyyy"), vec![1u8, 2, 3]);
+    fb.add_raw(Tag::new(b"zzzz"), vec![4u8, 5, 6, 7, 8]);
+    fb.add_raw(Tag::new(b"mmmm"), Vec::<u8>::new());
+    let maxp = write_fonts::tables::maxp::Maxp::new(3);
+    fb.add_table(&maxp).unwrap();
+    fb.add_raw(Tag::new(b"maxp"), vec![0u8, 0, 0x50, 0, 0, 9]);
+    fb.add_table(&maxp).unwrap();
+    fb.add_raw(Tag::new(b"aaaa"), vec![1u8, 2, 3]);
+    fb.add_raw(Tag::new(b"AAAA"), vec![1u8, 2, 3]);
+    fb.build()
 }
 
 /// post version 2 from a glyph order with standard names, custom names and repeated custom names.
